@@ -468,7 +468,9 @@ static int cmd_batch(const Engine *eng) {
       for (auto &kv : r.known) sum.known_hits[kv.first] += kv.second;
       sum.loghashes.insert(r.loghash);
       if (r.steps > 0 && r.end == "ok") nontrivial_keys.insert(r.loghash);
-      if (sum.sample_plans.size() < 3 && r.end == "ok" && !r.violated()) {
+      // samples spread over the batch (enumerated cells come first, random plans later)
+      bool sample_slot = job == 0 || job == g_opt.runs / 2 || job + 1 == g_opt.runs || job == (g_opt.runs * 3) / 4;
+      if (sample_slot && sum.sample_plans.size() < 4 && r.end == "ok" && !r.violated()) {
         sum.sample_plans.push_back(plans[job]);
         for (auto &n : r.notes) if (sum.sample_notes.size() < 12) sum.sample_notes.push_back(n);
       }
